@@ -121,15 +121,26 @@ def mark(block_text, src_toks, name):
         if t in opens: stack.append(i)
         elif t in opens.values():
             if stack and opens[toks[stack[-1]].text] == t: pairs.append((stack.pop(), i))
-    A = [(o, c) for o, c in pairs if is_src[o] and not is_src[c]]     # source open, inserted close
-    B = [(o, c) for o, c in pairs if not is_src[o] and is_src[c]]     # inserted open, source close
-    for o, c in A:
-        cand = [(abs(c2 - c), o2, c2) for o2, c2 in B if toks[c2].text == toks[c].text]
-        if not cand: raise SystemExit('automark: %s: unbalanced marking near line %d' % (name, toks[c].line))
-        _, o2, c2 = min(cand)
-        is_src[c] = True; is_src[c2] = False
-        B.remove((o2, c2))
-    if B: raise SystemExit('automark: %s: unbalanced marking near line %d' % (name, toks[B[0][1]].line))
+    def src_seq_ok():
+        return [toks[i].text for i in range(k, len(toks)) if is_src[i]] == s
+    for _round in range(200):
+        A = [(o, c) for o, c in pairs if is_src[o] and not is_src[c]]     # source open, inserted close
+        B = [(o, c) for o, c in pairs if not is_src[o] and is_src[c]]     # inserted open, source close
+        if not A and not B: break
+        if not A or not B: raise SystemExit('automark: %s: unbalanced marking near line %d' % (name, toks[(A or B)[0][1]].line))
+        o, c = A[0]
+        done = False
+        for _, o2, c2 in sorted((abs(c2 - c), o2, c2) for o2, c2 in B if toks[c2].text == toks[c].text):
+            for variant in ('closes', 'opens'):
+                if variant == 'closes': is_src[c], is_src[c2] = True, False
+                else: is_src[o], is_src[o2] = False, True
+                if src_seq_ok(): done = True; break
+                if variant == 'closes': is_src[c], is_src[c2] = False, True
+                else: is_src[o], is_src[o2] = True, False
+            if done: break
+        if not done: raise SystemExit('automark: %s: cannot repair bracket marking near line %d' % (name, toks[c].line))
+    if not src_seq_ok():
+        raise SystemExit('automark: %s: marking does not reproduce the source token sequence' % name)
     for i in range(k): is_src[i] = True     # head (visibility etc.) is never marked
     lines = clean.split('\n')
     by_line = {}
